@@ -257,6 +257,9 @@ func runC17F(s *kernel.Sim) {
 	}
 	calls := map[string]*call{}
 	seqs := []string{"s1", "s2", "s3"}
+	if tp.Chance(1, 4) {
+		seqs[2] = "" // a client that sends an empty x-lunar-sequence-id: still one sequence
+	}
 	pinned := tp.Chance(1, 4)
 	s.Knobs["client_pins_transaction_id"] = pinned
 	statuses := []int{500, 503, 599, 200, 404, 429}
@@ -340,7 +343,7 @@ func runC17F(s *kernel.Sim) {
 			n++
 			seq := seqs[perm[i]]
 			id := fmt.Sprintf("%s-r%d", seq, n)
-			if pinned {
+			if pinned && seq != "" {
 				id = seq // the client pins the transaction id (x-lunar-req-id): every attempt carries the sequence's id
 			}
 			delete(verdict, id)
